@@ -609,6 +609,74 @@ pub fn signet_fetch(seed: u64, tag: &str, blocks: usize, flags: &[&str]) -> Scen
   }
 }
 
+/// Provenance-centred scenario (C07): parents at known locations, children whose parent tags follow
+/// repetition / absence patterns over parents that are and are not spent by the reveal.
+pub fn provenance(seed: u64, tag: &str, blocks: usize, flags: &[&str]) -> Scenario {
+  let mut rng = StdRng::seed_from_u64(seed);
+  let mut steps = Vec::new();
+  let mut free: Vec<String> = Vec::new(); // unspent plain coinbase outputs
+  let mut held: Vec<(String, String)> = Vec::new(); // (inscription label, output holding it at offset 0)
+  let mut next_tx = 0;
+  let mut next_env = 0;
+  let cb = |i: usize| vec![OutSpec { v: SUBSIDY_UNITS, t: "tr".into(), s: (i % 4) as u32 }];
+  for b in 0..blocks {
+    let id = format!("{tag}b{b}");
+    let mut txs = Vec::new();
+    if b >= 3 {
+      for _ in 0..rng.gen_range(1..=3) {
+        if free.is_empty() {
+          break;
+        }
+        let own = free.remove(0);
+        let label = format!("{tag}t{next_tx}");
+        next_tx += 1;
+        let env_label = format!("{tag}e{next_env}");
+        next_env += 1;
+        // spend up to three parents
+        let mut spent: Vec<(String, String)> = Vec::new();
+        let k = if held.is_empty() { 0 } else { rng.gen_range(0..=3.min(held.len())) };
+        for _ in 0..k {
+          let i = rng.gen_range(0..held.len());
+          spent.push(held.remove(i));
+        }
+        let unspent_parent = held.choose(&mut rng).map(|h| h.0.clone());
+        let names: Vec<String> = spent.iter().map(|s| s.0.clone()).collect();
+        let mut parents: Vec<String> = Vec::new();
+        let pat = rng.gen_range(0..9);
+        let pick = |i: usize| names.get(i % names.len().max(1)).cloned().unwrap_or("zz-unknown".into());
+        match pat {
+          0 => {}
+          1 => parents = vec![pick(0)],
+          2 => parents = vec![pick(0), pick(1), pick(0)],
+          3 => parents = vec![pick(0), pick(0), pick(1)],
+          4 => parents = vec![pick(1), pick(0), pick(1), pick(0), pick(2)],
+          5 => parents = vec!["zz-unknown".into(), pick(0), "zz-unknown".into(), pick(0)],
+          6 => parents = vec![unspent_parent.clone().unwrap_or("zz-unknown".into()), pick(0)],
+          7 => parents = vec![env_label.clone(), pick(0), pick(1)],
+          _ => parents = vec![pick(2), pick(1), pick(0)],
+        }
+        let mut ins = vec![own.clone()];
+        ins.extend(spent.iter().map(|s| s.1.clone()));
+        let outs: Vec<OutSpec> = (0..ins.len()).map(|i| OutSpec { v: SUBSIDY_UNITS, t: "tr".into(), s: (i % 3) as u32 }).collect();
+        let env = EnvSpec { label: env_label.clone(), input: 0, parents, hidden: rng.gen_bool(0.3), ..Default::default() };
+        txs.push(TxSpec { label: label.clone(), ins, outs, envs: vec![env], ..Default::default() });
+        held.push((env_label, format!("{label}:0")));
+        for (i, sp) in spent.into_iter().enumerate() {
+          held.push((sp.0, format!("{label}:{}", i + 1)));
+        }
+      }
+    }
+    steps.push(Step::Block(BlockSpec { id: id.clone(), txs, cb: cb(b) }));
+    free.push(format!("c{id}:0"));
+    if (b + 1) % 4 == 0 {
+      steps.push(Step::Update);
+    }
+  }
+  steps.push(Step::Update);
+  Scenario { name: format!("{tag}-prov-seed{seed}"), chain: "regtest".into(), flags: flags.iter().map(|s| s.to_string()).collect(),
+    commit_interval: None, savepoint_interval: None, max_savepoints: None, steps }
+}
+
 /// Rune-dense scenario: mature taproot outputs, a few valid etchings, then many transfers.
 pub fn runes(seed: u64, tag: &str, blocks: usize, flags: &[&str]) -> Scenario {
   let mut g = G::new(seed, tag);
